@@ -81,4 +81,16 @@ PROPS = {
             "convergence of a complete session to the join, termination within the message budget and the silent second session are checked by the correspondence harness against the specification on every run; the Lean theorems proved so far are counts_mirror, join_absorbs, equal_replicas_first_message_is_last, join_entry_always_accepted, join_entry_never_removed",
         ],
     },
+    "C08": {
+        "lean_modules": ["DocsModel.Props.C08"],
+        "trusted_base": COMMON_TRUST + [
+            "redb tables modelled as sorted lists (range = in-order filter by the bounds; tuple keys compare element-wise)",
+            "BLAKE3 entry fingerprints supplied by the harness; hook H2 (parameter override and the in-crate BTreeMap backend driven by the crate's own process_message)",
+        ],
+        "assumptions": [
+            "range endpoints are identifiers of the replica's document or the range is (x, x) — what honest peers send; a crafted range with endpoints in other documents scans foreign rows (reported in DESIGN, outside the property)",
+            "ids are 32 bytes",
+            "equality of whole transcripts follows from equality of the primitives because process_message uses the store only through them; the lifted statement (processMessage_congr) is validated by the four-backend correspondence check, not yet a theorem",
+        ],
+    },
 }
